@@ -202,9 +202,9 @@ theorem every_handler_call_refuses_exactly_the_too_big (cfg : Cfg) (evs : List E
     execution whose transcript so far has no `assert-subid` panic: the limit in force, `w.c.maxPkt`
     (`remote_max_packet_size`), is `announcedMax w.out` — the Maximum Packet Size of the last CONNACK logged (as the
     result of `connect()` / `authorize()`, accepted or refused with a reason ≥ 0x80) that carried one; `none` if no CONNACK
-    carried one since the context was created, or the context was dropped. A CONNACK WITHOUT the property keeps the
-    previous value (`handle_connack` only assigns when the property is present) — also across reconnects on the same
-    context and across a session reset. Nothing else enters: `announcedMax` does not look at the client's own CONNECT
+    carried one since the context was created, or the context was dropped. A CONNACK WITHOUT the property means NO limit
+    for that connection, whatever an earlier connection of the same context announced (`handle_connack` assigns the
+    CONNACK's value unconditionally since the repair `fix: a CONNACK without Maximum Packet Size lifts the limit`). Nothing else enters: `announcedMax` does not look at the client's own CONNECT
     options (the `connect` event), at any request, or at any other inbound packet. Also: a call is executing only on an
     existing context, and without a context no limit is in force. -/
 theorem limit_in_force_is_last_announced (cfg : Cfg) (w : World) (hd : During cfg w) :
@@ -225,11 +225,11 @@ theorem limit_in_force_is_last_announced_script (cfg : Cfg) (evs : List Ev) (hp 
 theorem announcedMax_snoc (out : List Obs) (o : Obs) : announcedMax (out ++ [o]) = maxStep (announcedMax out) o := by
   simp [announcedMax, List.foldl_append]
 
-/-- a CONNACK with the property sets the limit, one without keeps it, the client's CONNECT leaves it alone, dropping the
-    context forgets it -/
+/-- a CONNACK sets the limit to what it announces (nothing announced = no limit), the client's CONNECT leaves it alone,
+    dropping the context forgets it -/
 theorem announcedMax_lines (out : List Obs) (call : Call) (k : ConnackRx) (t : ConnectTx) :
-    announcedMax (out ++ [.ret call (.connack k)]) = (k.maxPacketSize <|> announcedMax out) ∧
-    announcedMax (out ++ [.ret call (.connectError k)]) = (k.maxPacketSize <|> announcedMax out) ∧
+    announcedMax (out ++ [.ret call (.connack k)]) = k.maxPacketSize ∧
+    announcedMax (out ++ [.ret call (.connectError k)]) = k.maxPacketSize ∧
     announcedMax (out ++ [.ev (.connect t)]) = announcedMax out ∧
     announcedMax (out ++ [.ev .dropCtx]) = none := by
   simp only [announcedMax_snoc]
@@ -389,10 +389,11 @@ example :
     simp
   · decide
 
-/-- the transcript's limit follows the CONNACKs: set by one that carries the property, kept by one that does not -/
+/-- the transcript's limit follows the CONNACKs: set by one that carries the property, lifted by one that does not -/
 example :
     announcedMax [.ret .connect (.connack { sessionPresent := false, reason := 0, maxPacketSize := some 4 }),
-      .ret .connect (.connack { sessionPresent := false, reason := 0 })] = some 4 ∧
+      .ret .connect (.connack { sessionPresent := false, reason := 0 })] = none ∧
+    announcedMax [.ret .connect (.connack { sessionPresent := false, reason := 0, maxPacketSize := some 4 })] = some 4 ∧
     announcedMax [.ret .connect (.connack { sessionPresent := false, reason := 0, maxPacketSize := some 4 }),
       .ev .dropCtx] = none := by decide
 
